@@ -7,6 +7,9 @@ CONSTANTS
   MaxT = 1
   Phases <- twin_q_Phases
   ShapeSet <- twin_q_Shapes
+  Signers = {"s1", "s2"}
+  Recipients = {"r1", "r2"}
+  Policies <- twin_q_Policies
   CfgName = "twin_q"
 INIT Init
 NEXT Next
